@@ -392,6 +392,9 @@ def apply(I, st, inst, node, nidx, callee, args, term, dty, line):
             # checked_mul(..).unwrap_or(usize::MAX) is saturating_mul
             nm = "saturating_mul" if v[1] == "Mul" else "saturating_add"
             x, y = v[2], v[3]
+            if nm == "saturating_add":
+                return as_poly(x) + as_poly(y)       # value domain: the sum (as the saturating_add method itself)
+            x, y = sorted([as_poly(x), as_poly(y)], key=repr)          # commutative: one spelling
             return Poly.atom((nm, x, y))
         if isinstance(v, tuple) and v and v[0] == "checked" and v[1] == "Div":
             # a / b when b != 0, the fallback otherwise
